@@ -15,7 +15,7 @@ SPEC = "ControlSession"
 
 def run(tier, seed, replay=None):
     pid = "C19"
-    wd = vlib.workdir(pid)
+    wd = vctl_common.run_dir(pid)
     v = vlib.Verdict(pid, tier, seed)
     quick = tier == "quick"
     cfg = "ControlSession_c19_quick.cfg" if quick else "ControlSession_c19_full.cfg"
